@@ -10,6 +10,14 @@ def c01(tier):
                       params=dict(oversub=1, maxitems=800)))
         runs.append(H("c01_foreach", "asan", 120, "4,4,4,4", timeout_per_case=30, params=dict(maxitems=3000)))
         runs.append(H("c01_foreach", "asan", 60, None, timeout_per_case=30, params=dict(maxitems=3000)))
+        # slower timing of the race-detector build opens windows the optimised build hardly ever hits
+        runs.append(H("c01_foreach", "tsan", 100, "4,4,4,4", timeout_per_case=90, params=dict(maxitems=600)))
+        # worklists driven directly (push / pop-until-empty rounds), ~1 ms per case
+        runs.append(H("c01_direct", "plain", 1500, "4,4,4,4", timeout_per_case=10))
+        runs.append(H("c01_direct", "plain", 500, None, timeout_per_case=10))
+        runs.append(H("c01_direct", "plain", 400, "12,12,8", cpus=4, timeout_per_case=20, params=dict(oversub=1, maxitems=1200)))
+        # the priority schedulers (bins, scan starts, master log) under the race-detector build's timing
+        runs.append(H("c01_direct", "tsan", 400, "4,4,4,4", timeout_per_case=60, params=dict(maxitems=1200, wl="OBIM")))
     else:
         for t in TOPOS_THOROUGH:
             runs.append(H("c01_foreach", "plain", 4000, t, timeout_per_case=10))
@@ -19,6 +27,13 @@ def c01(tier):
                           params=dict(oversub=1, maxitems=1500)))
         runs.append(H("c01_foreach", "tsan", 300, "4,4,4,4", timeout_per_case=60, params=dict(maxitems=1500)))
         runs.append(H("c01_foreach", "tsan", 150, "3,5", timeout_per_case=60, params=dict(maxitems=1500)))
+        for t in TOPOS_THOROUGH:
+            runs.append(H("c01_direct", "plain", 12000, t, timeout_per_case=10))
+        for cpus in (2, 4):
+            runs.append(H("c01_direct", "plain", 3000, "12,12,8", cpus=cpus, timeout_per_case=20, params=dict(oversub=1)))
+        runs.append(H("c01_direct", "tsan", 2000, "4,4,4,4", timeout_per_case=60))
+        runs.append(H("c01_direct", "tsan", 2000, "3,5", timeout_per_case=60, params=dict(wl="OBIM")))
+        runs.append(H("c01_direct", "asan", 1500, "3,5", timeout_per_case=30))
     return runs
 
 
@@ -32,7 +47,10 @@ SPEC = dict(
                "with seeded delays at failpoints inside the executor, worklists, abort queues and termination detector and with CPU "
                "over-subscription. The expected work set is computed before the loop; after it every item must have committed exactly "
                "once, every started item must carry the tag of its parent's committing attempt, nothing runs after return, and a logical "
-               "monitor decides 'always returns'. Held on the executions observed, not all schedules.",
+               "monitor decides 'always returns'. A second harness drives the worklist policies that need no executor co-operation directly "
+               "(push phases, pop-until-empty rounds with children pushed at earlier/later priorities, sparse priorities so that "
+               "every item has its own bin) and demands that after a round in which no thread could pop anything every pushed item "
+               "has been popped exactly once. Held on the executions observed, not all schedules.",
     level_note="Trusts the harness oracles (independent of the runtime's own counters), x86 for the relaxed-atomic bookkeeping, the "
                "/proc-based hang monitor; virtual topologies stand in for real multi-socket machines; parallel_break loops and the "
                "deterministic executor (C07) are outside this check.",
@@ -40,7 +58,7 @@ SPEC = dict(
          "initial items, fan-out shape, neighbourhoods over 1-256 lockables, voluntary aborts, delays, failpoint noise) on one virtual "
          "topology; non-trivial iff >=2 threads committed items and (>=1 aborted attempt or >=1 pushed item); distinct by "
          "(worklist, cd, sockets, threads, item count, object count, aborts seen, threads that committed)",
-    require={"items_committed": 10000, "aborted_attempts": 100, "multi_socket_cases": 10},
+    require={"items_committed": 10000, "aborted_attempts": 100, "multi_socket_cases": 10, "direct_cases": 1000, "items_popped": 100000},
     assumptions=["operator programs are pure functions of the item id; the work closure is computed before the loop",
                  "an attempt is 'committed' for the oracle once it passed its last acquire and its voluntary-abort decision",
                  "virtual topologies come from the GALOIS_VERIF_TOPO hook; threads are not bound"],
